@@ -16,7 +16,7 @@ import (
 // Preflight table (C11): phase contents mixing valid objects with each class of violating object at
 // every position × owner flavour × rollout/teardown.
 
-var pfClasses = []string{"valid", "unknownAPI", "presetOwner", "foreignNS", "clusterNoNS", "clusterOwnNS", "dryReject", "dup", "dry500", "dry429"}
+var pfClasses = []string{"valid", "unknownAPI", "presetOwner", "foreignNS", "clusterNoNS", "clusterOwnNS", "dryReject", "dup", "dupver", "dry500", "dry429"}
 
 type PFRow struct {
 	Flavour  string   // os | cos | ph
@@ -43,7 +43,7 @@ func PFRows() []PFRow {
 				if fl == "ph" {
 					hasDup := false
 					for _, c := range s {
-						hasDup = hasDup || c == "dup"
+						hasDup = hasDup || c == "dup" || c == "dupver"
 					}
 					if hasDup {
 						continue
@@ -109,6 +109,15 @@ func pfObject(class string, idx int, flavour string) *unstructured.Unstructured 
 		if flavour == "cos" {
 			u.SetNamespace(NS)
 		}
+	case "dupver", "dupver2":
+		// the same object listed under two served versions of its API: one object for the API server
+		u = Widget("dupev", 1)
+		if flavour == "cos" {
+			u.SetNamespace(NS)
+		}
+		if class == "dupver2" {
+			u.SetAPIVersion(gvkWidget.Group + "/v2")
+		}
 	}
 	return u
 }
@@ -121,7 +130,7 @@ func runPFRow(w *World, i int, r PFRow) {
 	classes := map[string]any{}
 	var p1, p2 []*unstructured.Unstructured
 	idx := 0
-	hasDup := false
+	hasDup, dupClass := false, ""
 	mk := func(cs []string) []*unstructured.Unstructured {
 		var out []*unstructured.Unstructured
 		for _, c := range cs {
@@ -139,8 +148,9 @@ func runPFRow(w *World, i int, r PFRow) {
 			if c == "dryReject" {
 				st.RejectNames[u.GetName()] = true
 			}
-			if c == "dup" {
+			if c == "dup" || c == "dupver" {
 				hasDup = true
+				dupClass = c
 			}
 			if c == "dry500" {
 				st.DryRunErr[u.GetName()] = "InternalError"
@@ -160,7 +170,11 @@ func runPFRow(w *World, i int, r PFRow) {
 		phases = append(phases, PhaseSpec{Name: "p2", Objects: p2})
 		if hasDup {
 			// the second occurrence of the duplicate
-			phases = append(phases, PhaseSpec{Name: "p3", Objects: []*unstructured.Unstructured{pfObject("dup", 0, r.Flavour)}})
+			second := dupClass
+			if second == "dupver" {
+				second = "dupver2"
+			}
+			phases = append(phases, PhaseSpec{Name: "p3", Objects: []*unstructured.Unstructured{pfObject(second, 0, r.Flavour)}})
 		}
 	}
 	rowJSON, _ := json.Marshal(r)
